@@ -83,10 +83,13 @@ class SourceD(object):
             self.injected[mibname] = exc
             self.trace.add(comp, 'getData', 'raise', name=mibname, exc=v[1], err=exc)
             raise exc
-        self.trace.add(comp, 'getData', 'ret', name=mibname, text=v)
+        # every file of every source has a modification time of its own
+        import zlib
+        mtime = self.mtime + zlib.crc32(('%s/%s' % (self.ident, mibname)).encode()) % 5000
+        self.trace.add(comp, 'getData', 'ret', name=mibname, text=v, mtime=mtime)
         name = mibname.lower() if self.alias == 'lower' else mibname
         return MibInfo(path='dbl://%s/%s' % (self.ident, mibname), file=name + '.txt',
-                       name=name, mtime=self.mtime), v
+                       name=name, mtime=mtime), v
 
 
 class ParserW(object):
